@@ -832,7 +832,7 @@ def canonical(role, o, ctx=None):
     ctx = ctx or _CUR["ctx"]
     name = "%s(%s)" % (role, o)
     b = getattr(ctx, "builder", None) if ctx is not None else None
-    if b is not None and b.versioning:
+    if b is not None and b.versioning and role != "cap":      # the capacity is a compile-time constant: one atom for all states
         v = b.versions.get(o, 0)
         if v:
             name += "#%d" % v
